@@ -32,9 +32,9 @@ CLAIMED["C17"] = ("S", "deterministic simulation with fault injection: twin run 
   "The same generated batches (and injected failures) go through sqlite.go and postgres.go; the Postgres statements are executed on SQLite by a syntactic rewriting driver, so guards, argument order, scan order and result mapping of postgres.go are exercised for real; results and contents are compared with the reference store and with each other. Seeded sampling with a stubbed database server.",
   "No Postgres server in the sandbox: server-only behaviour (isolation with several workers, LIKE case rules, jsonb normalisation) is not decided. See DESIGN.md 9.", "DESIGN.md 5 C17, 9")
 CLAIMED["C13"] = K("hostile inputs through both production front ends interleaved with well-formed traffic, then background cycles, crash and restart; no panic anywhere, every request answered, refused requests leave no trace",
-  "Field-wise mutated HTTP and gRPC requests (absent, null, wrong type, negative, huge, template syntax, JSON literals, separators, forged and well-signed hostile cursors) go through the real gin engine and gRPC service methods into the simulated kernel; stored data is then routed, dispatched, fired and timed out, also after restart. A panic in any production goroutine (recovered or process death), an unanswered request or a 4xx reply that left a trace is a violation.", "DESIGN.md 5 C13")
+  "Field-wise mutated HTTP and gRPC requests (absent, null, wrong type, negative, huge, template syntax, JSON literals, separators, forged and well-signed hostile cursors) go through the real gin engine and gRPC service methods into the simulated kernel; stored data is then routed, dispatched, fired and timed out, also after restart. A panic in any production goroutine (recovered or process death), a production call that never returns, an unanswered request or a 4xx reply that left a trace is a violation. Receivers the transports cannot use go through the production address handling of the poll and http workers; registrations with coinciding derived ids are generated; a second phase (15 %) runs the poll transport itself (engine P) under connection histories.", "DESIGN.md 5 C13")
 CLAIMED["C15"] = K("rendered reply compared with the kernel outcome for every request of a faulted simulation through both front ends, plus a shadow translation through the other protocol",
-  "Every request goes through HTTP or gRPC; the api wrapper records the kernel request and the kernel outcome, the handler's rendered reply is checked against an independent rendering (status/100, resource or error body; gRPC code by status class, message fields, outcome flags), and the same spec is translated through the other protocol against a capture api to compare kernel requests. Error statuses are produced by real faults, tiny queues and shutdown. Input-dominated property: see DESIGN.md 9.", "DESIGN.md 5 C15, 9")
+  "Every request goes through HTTP or gRPC; the api wrapper records the kernel request and the kernel outcome, the handler's rendered reply is checked against an independent rendering (status/100, resource or error body; gRPC code by status class, message fields, outcome flags), and the same spec is translated through the other protocol against a capture api to compare kernel requests. Error statuses are produced by real faults, tiny queues and shutdown; 30 % of the requests get a synthesised kernel outcome (every status code defined in status.go, optional resources present or absent) rendered through both front ends; the kernel request is compared with the client's intent. Input-dominated property: see DESIGN.md 9.", "DESIGN.md 5 C15, 9")
 CLAIMED["C20"] = K("hostile-but-legal client data written through one front end and observed through the other, through search, claims, notifications, dispatched bodies and after restart, against byte-exact oracles",
   "Ids with separators, markup, case and whitespace variants and non-ASCII text, arbitrary value bytes, header/tag maps, int64-extreme timeouts; the kernel request must equal the spec (both protocols), rows must equal the request, every body must equal the row, derived ids (scheduled promise ids, task ids) must embed the client id verbatim. Input-dominated property: see DESIGN.md 9.", "DESIGN.md 5 C20, 9")
 CLAIMED["C18"] = ("P", "deterministic simulation: production poll worker loop and HTTP handler in a testing/synctest bubble, one event at a time, against a registry model",
